@@ -38,6 +38,12 @@ func genStress(r *eng.Rng, th bool, race bool) StressParams {
 	}
 	if th {
 		p.Batches = 100 + r.Intn(300)
+		if p.Filler > 0 {
+			// hundreds of batches of thousands of unsorted keys do not finish
+			// within the watchdog; the point of these runs is the sorter
+			// contention on fresh segments, not volume
+			p.Batches = 30 + r.Intn(50)
+		}
 	}
 	if race {
 		p.Batches = 30 + r.Intn(60)
@@ -79,7 +85,7 @@ func init() {
 		Level: "exploration",
 		Rule: "free-running concurrent runs: 2-6 writers with disjoint key prefixes execute 40-150 (thorough 100-400) self-identifying batches (a marker = batch number plus a pseudo-random subset of payload keys set/deleted, in the top-level collection and in 0-2 child collections, all in one batch) while 1-2 full readers (every key by Get and by iteration, child snapshots), 1-3 hammer readers (marker + one payload + one child key per snapshot) and a direct Collection.Get reader run; MaxPreMergerBatches in {1,2,3} so writers block; merger, persister and compactor run freely with seeded delays injected at the hook points between critical sections. Online interval oracle per snapshot and writer: the projection equals the state after exactly the marker's number of that writer's batches (else torn batch); marker >= batches returned (or observed by any earlier-finished snapshot) before the call started; marker <= batches invoked when the call returned; never decreasing per reader. One run in four is re-checked offline with porcupine (register per writer); disagreement = harness error class. distinct_nontrivial = distinct (backing | API call overlapping a background phase | blocked writers / compactions / children / options) units observed.",
 		MinUnits:    10,
-		Assumptions: []string{"cross-writer atomicity is not demanded (the property is per writer)", "wall-clock is used only as a 120 s watchdog; a run still pending then is a violation only if every moss goroutine is blocked (quiescent deadlock), otherwise inconclusive"},
+		Assumptions: []string{"cross-writer atomicity is not demanded (the property is per writer)", "wall-clock is used only as a progress watchdog (no writer completed a batch for 60 s); a run still pending then is a violation only if every moss goroutine is blocked (quiescent deadlock), otherwise inconclusive"},
 	}
 	ck.Run = func(c *run.Ctx) *run.ShardResult { return stressShard(c, "C03", false) }
 	ck.Replay = func(body json.RawMessage, scratch string) ([]run.ViolationRec, string) {
